@@ -156,8 +156,14 @@ class _STIXBase(collections.abc.Mapping):
                         ext_id, "2.1", "extensions",
                     )
                     if registered_ext_class:
+                        # A registered extension of another kind has no
+                        # toplevel properties; validating "extensions" will
+                        # complain about the mismatch later.
                         registered_toplevel_extension_props.update(
-                            registered_ext_class._toplevel_properties,
+                            getattr(
+                                registered_ext_class,
+                                "_toplevel_properties", None,
+                            ) or {},
                         )
                     else:
                         has_unregistered_toplevel_extension = True
